@@ -9,8 +9,10 @@ import (
 // at every instrumented clock read ("execution takes time"). Timers run on the bubble
 // clock, so relative to the virtual clock they are never early.
 
+//go:norace
 func (s *Sim) vnowLocked() time.Time { return time.Now().Add(s.offset) }
 
+//go:norace
 func (s *Sim) jitterLocked() time.Duration {
 	switch s.cfg.Jitter {
 	case "small":
@@ -32,38 +34,43 @@ func (s *Sim) jitterLocked() time.Duration {
 }
 
 // Now replaces time.Now.
+//go:norace
 func Now(site string) time.Time {
 	s := cur()
 	if s == nil {
 		return time.Now()
 	}
 	Yield(site)
-	s.mu.Lock()
+	ilock(&s.mu)
 	s.offset += s.jitterLocked()
 	t := s.vnowLocked()
-	s.mu.Unlock()
+	iunlock(&s.mu)
 	return t
 }
 
 // VNow reads the virtual clock without a yield and without advancing it (harness use).
+//go:norace
 func VNow() time.Time {
 	s := cur()
 	if s == nil {
 		return time.Now()
 	}
-	s.mu.Lock()
+	ilock(&s.mu)
 	t := s.vnowLocked()
-	s.mu.Unlock()
+	iunlock(&s.mu)
 	return t
 }
 
 // Since replaces time.Since.
+//go:norace
 func Since(site string, t time.Time) time.Duration { return Now(site).Sub(t) }
 
 // Until replaces time.Until.
+//go:norace
 func Until(site string, t time.Time) time.Duration { return t.Sub(Now(site)) }
 
 // Sleep replaces time.Sleep.
+//go:norace
 func Sleep(site string, d time.Duration) {
 	if cur() == nil {
 		time.Sleep(d)
@@ -79,6 +86,7 @@ func Sleep(site string, d time.Duration) {
 }
 
 // After replaces time.After.
+//go:norace
 func After(site string, d time.Duration) <-chan time.Time { return NewTimer(site, d).C }
 
 // Timer replaces time.Timer (both the channel and the AfterFunc flavour).
@@ -99,6 +107,7 @@ type Timer struct {
 }
 
 // NewTimer replaces time.NewTimer.
+//go:norace
 func NewTimer(site string, d time.Duration) *Timer {
 	s := cur()
 	if s == nil {
@@ -114,8 +123,9 @@ func NewTimer(site string, d time.Duration) *Timer {
 }
 
 // fireChan delivers a tick (non-blocking, capacity 1: a pending tick is kept).
+//go:norace
 func (tm *Timer) fireChan(gen int) {
-	tm.mu.Lock()
+	ilock(&tm.mu)
 	if gen == tm.gen {
 		tm.armed = false
 		select {
@@ -123,17 +133,18 @@ func (tm *Timer) fireChan(gen int) {
 		default:
 		}
 	}
-	tm.mu.Unlock()
+	iunlock(&tm.mu)
 }
 
 // arm (re)starts the underlying bubble timer; non-positive durations fire inline so
 // that the firing is ordered by the controller and not by the runtime's timer thread.
+//go:norace
 func (tm *Timer) arm(d time.Duration) {
-	tm.mu.Lock()
+	ilock(&tm.mu)
 	tm.gen++
 	gen := tm.gen
 	tm.armed = true
-	tm.mu.Unlock()
+	iunlock(&tm.mu)
 	if tm.fn != nil {
 		if d <= 0 {
 			tm.fireFunc(gen, true)
@@ -150,17 +161,18 @@ func (tm *Timer) arm(d time.Duration) {
 }
 
 // fireFunc runs an AfterFunc callback as a worker of its own, parked at its entry.
+//go:norace
 func (tm *Timer) fireFunc(gen int, inline bool) {
 	s := tm.s
-	tm.mu.Lock()
+	ilock(&tm.mu)
 	if gen != tm.gen {
-		tm.mu.Unlock()
+		iunlock(&tm.mu)
 		return
 	}
 	tm.armed = false
 	tm.fires++
 	n := tm.fires
-	tm.mu.Unlock()
+	iunlock(&tm.mu)
 	id := tm.id + "#" + itoa(n)
 	if inline {
 		s.spawn(id, "timer-callback", false, "", tm.fn)
@@ -179,13 +191,14 @@ func (tm *Timer) fireFunc(gen int, inline bool) {
 
 // stopUnderlying stops the bubble timer; reports whether it was armed and had not
 // fired yet.
+//go:norace
 func (tm *Timer) stopUnderlying() bool {
-	tm.mu.Lock()
+	ilock(&tm.mu)
 	was := tm.armed
 	tm.armed = false
 	tm.gen++
 	t := tm.t
-	tm.mu.Unlock()
+	iunlock(&tm.mu)
 	if t != nil {
 		t.Stop()
 	}
@@ -193,6 +206,7 @@ func (tm *Timer) stopUnderlying() bool {
 }
 
 // Stop replaces (*time.Timer).Stop.
+//go:norace
 func (tm *Timer) Stop() bool {
 	if tm.plain != nil {
 		return tm.plain.Stop()
@@ -212,6 +226,7 @@ func (tm *Timer) Stop() bool {
 }
 
 // Reset replaces (*time.Timer).Reset.
+//go:norace
 func (tm *Timer) Reset(d time.Duration) bool {
 	if tm.plain != nil {
 		return tm.plain.Reset(d)
@@ -230,6 +245,7 @@ func (tm *Timer) Reset(d time.Duration) bool {
 }
 
 // AfterFunc replaces time.AfterFunc.
+//go:norace
 func AfterFunc(site string, d time.Duration, f func()) *Timer {
 	s := cur()
 	if s == nil {
@@ -238,7 +254,7 @@ func AfterFunc(site string, d time.Duration, f func()) *Timer {
 	w := s.self()
 	Yield(site)
 	tm := &Timer{s: s, fn: f}
-	s.mu.Lock()
+	ilock(&s.mu)
 	if w != nil {
 		tm.id = w.id + "t" + itoa(w.ntimer)
 		w.ntimer++
@@ -246,7 +262,7 @@ func AfterFunc(site string, d time.Duration, f func()) *Timer {
 		tm.id = "xt" + itoa(s.timerSeq)
 		s.timerSeq++
 	}
-	s.mu.Unlock()
+	iunlock(&s.mu)
 	tm.arm(d)
 	return tm
 }
@@ -264,6 +280,7 @@ type Ticker struct {
 }
 
 // NewTicker replaces time.NewTicker.
+//go:norace
 func NewTicker(site string, d time.Duration) *Ticker {
 	if cur() == nil {
 		t := time.NewTicker(d)
@@ -280,17 +297,18 @@ func NewTicker(site string, d time.Duration) *Ticker {
 	return tk
 }
 
+//go:norace
 func (tk *Ticker) start() {
-	tk.mu.Lock()
+	ilock(&tk.mu)
 	tk.gen++
 	gen := tk.gen
 	d := tk.period
-	tk.mu.Unlock()
+	iunlock(&tk.mu)
 	var fire func()
 	fire = func() {
-		tk.mu.Lock()
+		ilock(&tk.mu)
 		if gen != tk.gen {
-			tk.mu.Unlock()
+			iunlock(&tk.mu)
 			return
 		}
 		select {
@@ -298,41 +316,43 @@ func (tk *Ticker) start() {
 		default:
 		}
 		tk.t = time.AfterFunc(d, fire)
-		tk.mu.Unlock()
+		iunlock(&tk.mu)
 	}
-	tk.mu.Lock()
+	ilock(&tk.mu)
 	tk.t = time.AfterFunc(d, fire)
-	tk.mu.Unlock()
+	iunlock(&tk.mu)
 }
 
 // Stop replaces (*time.Ticker).Stop.
+//go:norace
 func (tk *Ticker) Stop() {
 	if tk.plain != nil {
 		tk.plain.Stop()
 		return
 	}
 	Yield("ticker.Stop")
-	tk.mu.Lock()
+	ilock(&tk.mu)
 	tk.gen++
 	if tk.t != nil {
 		tk.t.Stop()
 	}
-	tk.mu.Unlock()
+	iunlock(&tk.mu)
 }
 
 // Reset replaces (*time.Ticker).Reset.
+//go:norace
 func (tk *Ticker) Reset(d time.Duration) {
 	if tk.plain != nil {
 		tk.plain.Reset(d)
 		return
 	}
 	Yield("ticker.Reset")
-	tk.mu.Lock()
+	ilock(&tk.mu)
 	tk.gen++
 	if tk.t != nil {
 		tk.t.Stop()
 	}
 	tk.period = d
-	tk.mu.Unlock()
+	iunlock(&tk.mu)
 	tk.start()
 }
